@@ -78,13 +78,15 @@ def _alarm(_sig, _frm):
 
 def _with_timeout(seconds, fn):
     """Runs fn(); a call that does not return within `seconds` raises _Timeout (non-termination is a violation)."""
-    old = signal.signal(signal.SIGPROF, _alarm)
-    signal.setitimer(signal.ITIMER_PROF, seconds)  # CPU time of this process: robust against a loaded machine
+    # user-mode CPU time of this process: robust against a loaded machine and against memory pressure (page-fault
+    # handling is system time and does not count)
+    old = signal.signal(signal.SIGVTALRM, _alarm)
+    signal.setitimer(signal.ITIMER_VIRTUAL, seconds)
     try:
         return fn()
     finally:
-        signal.setitimer(signal.ITIMER_PROF, 0)
-        signal.signal(signal.SIGPROF, old)
+        signal.setitimer(signal.ITIMER_VIRTUAL, 0)
+        signal.signal(signal.SIGVTALRM, old)
 
 
 # =============================================================================================
